@@ -1,6 +1,7 @@
 package props
 
 import (
+	"verif/fold"
 	"bytes"
 	"fmt"
 	"os"
@@ -71,28 +72,28 @@ func c05Ops(s *sim.Src, d *sqlittle.DB, snap *sq.Snapshot, extraTables, extraInd
 	ixOf := map[string][]string{}
 	if snap != nil {
 		for _, t := range snap.Tables {
-			if !seenT[strings.ToLower(t.Name)] {
-				seenT[strings.ToLower(t.Name)] = true
+			if !seenT[fold.Lower(t.Name)] {
+				seenT[fold.Lower(t.Name)] = true
 				tnames = append(tnames, t.Name)
 			}
-			colsOf[strings.ToLower(t.Name)] = t.ColNames()
+			colsOf[fold.Lower(t.Name)] = t.ColNames()
 			for _, ix := range t.Indexes {
 				inames = append(inames, ix.Name)
-				ixOf[strings.ToLower(t.Name)] = append(ixOf[strings.ToLower(t.Name)], ix.Name)
+				ixOf[fold.Lower(t.Name)] = append(ixOf[fold.Lower(t.Name)], ix.Name)
 			}
 		}
 	}
 	for _, n := range extraTables {
-		if !seenT[strings.ToLower(n)] && len(tnames) < 8 {
-			seenT[strings.ToLower(n)] = true
+		if !seenT[fold.Lower(n)] && len(tnames) < 8 {
+			seenT[fold.Lower(n)] = true
 			tnames = append(tnames, n)
 		}
 	}
 	seenI := map[string]bool{}
 	var inames2 []string
 	for _, n := range append(inames, extraIndexes...) {
-		if !seenI[strings.ToLower(n)] && len(inames2) < 10 {
-			seenI[strings.ToLower(n)] = true
+		if !seenI[fold.Lower(n)] && len(inames2) < 10 {
+			seenI[fold.Lower(n)] = true
 			inames2 = append(inames2, n)
 		}
 	}
@@ -112,7 +113,7 @@ func c05Ops(s *sim.Src, d *sqlittle.DB, snap *sq.Snapshot, extraTables, extraInd
 		return k
 	}
 	for _, t := range tnames {
-		cols := colsOf[strings.ToLower(t)]
+		cols := colsOf[fold.Lower(t)]
 		// ask sqlittle for the columns it believes in, too
 		if c, err := safeColumns(d, t); err == nil && len(c) > 0 && s.Chance(1, 2, "owncols") {
 			cols = c
@@ -135,7 +136,7 @@ func c05Ops(s *sim.Src, d *sqlittle.DB, snap *sq.Snapshot, extraTables, extraInd
 			ops.Op{Kind: "iscan", Table: t, Lock: true},
 			ops.Op{Kind: "iscanmin", Table: t, From: dbkey(), Lock: true},
 		)
-		for _, ix := range ixOf[strings.ToLower(t)] {
+		for _, ix := range ixOf[fold.Lower(t)] {
 			out = append(out,
 				ops.Op{Kind: "ixselect", Table: t, Index: ix, Cols: cols, Scan: true},
 				ops.Op{Kind: "ixeq", Table: t, Index: ix, Key: key(), Cols: cols},
